@@ -46,13 +46,13 @@ CLAIMED = {
              "the skeleton has if/elif/else, while/for WITH else clauses, with, try/except/finally (handler none / catch-all / may match), return, raise, break, continue, assert; "
              "deleting what follows a blocking statement preserves outcome, consumed oracle stream and the trace of executed statements; a try statement is never reported blocking; "
              "and has_side_effect's model answers False only for "
-             "expressions in which no position (comprehension element, condition, slice, f-string, keyword value, lambda default) holds a store, a control transfer or a "
-             "call to a callee outside the whitelist (pure_sound). 7 theorems. The models equal core.is_blocking on all enumerated statement shapes and core.has_side_effect "
+             "expressions in which no position (comprehension element, condition, slice, f-string, keyword value, lambda default) holds a store, a control transfer, a "
+             "call to a callee outside the whitelist or an unknown callable handed to a builtin that calls it (pure_sound). 7 theorems. The models equal core.is_blocking on all enumerated statement shapes and core.has_side_effect "
              "on every expression node of the corpus x 3 whitelists; the semantics equals CPython on instrumented functions.",
         design="4/C16",
         note="Trusted: Lean kernel; Flow.lean tied by suites blocking (exhaustive shapes) and exec (CPython); SideEffect.lean tied by suite sideeffect "
-             "(expressions and simple statements; If / For / def statements of has_side_effect are outside it); that whitelisted callees are themselves effect-free is "
-             "an assumption (one recorded finding: sorted(key=g)); try-else, several handlers, async constructs and match statements are outside the skeleton; shapes with a jump in a finally block "
+             "(expressions, simple statements, for and if statements; def / class statements of has_side_effect are outside it); that whitelisted callees are themselves effect-free is "
+             "an assumption (callables handed to builtins that call them - key=, map, filter - are in the model since the repair f067a1c); try-else, several handlers, async constructs and match statements are outside the skeleton; shapes with a jump in a finally block "
              "inside a loop are not executed against CPython (they swallow the step budget).",
         technique="Lean 4 proof (simultaneous induction on fuel for statements and statement lists) + exhaustive-shape correspondence + all-valuation execution oracle",
     ),
@@ -62,7 +62,7 @@ CLAIMED = {
              "rollback too); the line scan is characterised exactly. 5 theorems.",
         design="4/C20",
         note="Trusted: Lean kernel; Lines/Sched models tied by suites lines and sched-ignored; the direct editing path (alter_code) and raw-text stages "
-             "are outside the theorems (annotate-a-line oracle, known finding listed).",
+             "are outside the theorems (annotate-a-line oracle and a per-rule direct-editing suite; the two defects they found are repaired: f435970, 9fc5461).",
         technique="Lean 4 proof (splice algebra + scheduler invariant) + differential correspondence + annotate-every-line oracle",
     ),
     "C05": dict(
@@ -167,8 +167,9 @@ CLAIMED = {
     ),
     "C07": dict(
         text="Machine-checked proof over the guard logic: the safe-mode set contains every top-level def/class, every collected top-level assignment target, every "
-             "Class.method pair and the caller's names, and a guarded rule touches no name of the set; the surface statement is false for class members looked up by "
-             "bare name (witness theorem; replayed, known findings for class members and starred/list targets). 3 theorems.",
+             "Class.method and Class.attribute pair and the caller's names; a guarded rule touches no name of the set, and a rule that renames or moves class members "
+             "(it looks up the bare name and Class.member) touches no member of a top-level class (safe_class_member_ok); a lookup by the bare name alone would miss them "
+             "(witness theorem - the defect repaired by 00fac0d). 4 theorems.",
         design="4/C07",
         note="Trusted: Lean kernel; Preserve.lean tied by suite safeset (the set really handed to the rules, captured from the harness); that every rule consults "
              "preserve is examined by the surface oracle on library-like modules and the corpus.",
@@ -183,19 +184,21 @@ CLAIMED = {
         technique="Lean 4 proof (membership) + differential correspondence through the real format_files + client-execution oracle",
     ),
     "C02": dict(
-        text="Machine-checked behaviour preservation (17 theorems). (1) Control-flow rules: a proved validator - C16.validate l l' = true implies that under every valuation of "
+        text="Machine-checked behaviour preservation (19 theorems). (1) Control-flow rules: a proved validator - C16.validate l l' = true implies that under every valuation of "
              "the unknown tests and every iteration count l and l' terminate with the same outcome, oracle position and trace of executed statements and evaluated tests, or both "
              "diverge (flow_rewrite_sound, via a normaliser proved sound against a big-step semantics with loop else-clauses and try/except/finally); every rewrite the REAL "
              "remove_dead_ifs, delete_unreachable_code, remove_redundant_else, swap_if_else, early_continue, breakout_common_code_in_ifs make on labelled skeleton programs is "
              "checked by it (translation validation), a rejected rewrite is executed under all valuations for the replay. (2) Decision cores: constant-condition folding, negation, "
              "replace_negated_numeric_comparison, simplify_boolean_expressions' bound analysis, simplify_constrained_range (corollaries of C15/C17), remove_redundant_boolop_values (value of the "
              "chain), remove_duplicate_set_elts, remove_duplicate_dict_keys (lookups preserved; the item order is NOT - counterexample theorem, recorded finding). The other ~75 rules have NO Lean "
-             "model: each public rule function is applied in isolation to the fixed corpus by the rule sweep (support, reported separately; the evidence lists how often each fired).",
+             "model: each public rule function is applied in isolation to the fixed corpus by the rule sweep, and to the texts that arise inside format_code by the pipeline-steps suite "
+             "(format_code traced, every text-changing step executed before and after) - support, reported separately; the evidence lists how often each fired. unused_zip_args: "
+             "sound iff the dropped argument is at least as long (theorem + counterexample, recorded finding).",
         design="4/C01-C02",
         note="Trusted: Lean kernel; models tied as in C15/C16/C17; for unmodelled rules the claim is NOT shown by proof - only the execution sweep looks at them; corpus inputs "
              "on which the reference tree already fails are baseline-excluded (corpus/baseline_C02.json); the skeleton abstracts expressions, assignments and return values; reader / renderer "
              "of the skeleton language (harness/flowrules.py) are trusted; two recorded findings of breakout_common_code_in_ifs are recognised structurally.",
-        technique="Lean 4 proof (verified translation validator for the control-flow rules; corollaries for decision cores) + per-rule execution sweep over a fixed corpus for all rules",
+        technique="Lean 4 proof (verified translation validator for the control-flow rules; corollaries for decision cores) + per-rule execution sweep over a fixed corpus and over the pipeline's intermediate texts for all rules",
     ),
     "C11": dict(
         text="Machine-checked proof of the whitespace algebra: tab expansion and trailing-blank removal keep the sequence of non-whitespace characters, no tab is left after "
